@@ -27,6 +27,7 @@ fn reproduces(case: &Case, sig: &str, ctx: &Ctx) -> bool {
 fn script_of(case: &Case) -> Option<&W1Script> {
     match case {
         Case::W1(s) | Case::W1TwinInfallible(s) | Case::W1TwinPulse(s) => Some(s),
+        _ => None,
     }
 }
 fn with_script(case: &Case, s: W1Script) -> Case {
@@ -34,7 +35,45 @@ fn with_script(case: &Case, s: W1Script) -> Case {
         Case::W1(_) => Case::W1(s),
         Case::W1TwinInfallible(_) => Case::W1TwinInfallible(s),
         Case::W1TwinPulse(_) => Case::W1TwinPulse(s),
+        c => c.clone(),
     }
+}
+
+/// delta-debug the schedule of a W2 case (steps), then drop unused clients' ops
+fn ddmin_w2(case: &Case, sig: &str, ctx: &Ctx) -> Case {
+    let Case::W2(s0) = case else { return case.clone() };
+    let mut cur = s0.clone();
+    let mut chunk = cur.steps.len().max(1) / 2;
+    while chunk >= 1 {
+        let mut i = 0;
+        while i < cur.steps.len() {
+            let mut t = cur.clone();
+            let end = (i + chunk).min(t.steps.len());
+            t.steps.drain(i..end);
+            if reproduces(&Case::W2(t.clone()), sig, ctx) {
+                cur = t;
+            } else {
+                i += chunk;
+            }
+        }
+        if chunk == 1 {
+            break;
+        }
+        chunk /= 2;
+    }
+    for f in [0usize, 1] {
+        let mut t = cur.clone();
+        if f == 0 {
+            t.capacity = 0;
+            t.reset_at_end = false;
+        } else {
+            t.placement = Placement::Fixed(0);
+        }
+        if reproduces(&Case::W2(t.clone()), sig, ctx) {
+            cur = t;
+        }
+    }
+    Case::W2(cur)
 }
 
 fn flatten(ops: &[Op]) -> Vec<Op> {
@@ -89,6 +128,9 @@ fn ddmin_ops(case: &Case, sig: &str, ctx: &Ctx) -> Case {
 
 fn simplify_config(case: &Case, sig: &str, ctx: &Ctx) -> Case {
     let mut cur = case.clone();
+    if script_of(&cur).is_none() {
+        return cur;
+    }
     let try_ = |cur: &mut Case, f: &dyn Fn(&mut W1Script)| {
         let mut s = script_of(cur).unwrap().clone();
         f(&mut s);
@@ -187,6 +229,11 @@ fn shrink_leaves(case: &Case, sig: &str, ctx: &Ctx) -> Case {
 pub fn minimize(case: &Case, sig: &str, ctx: &Ctx) -> Case {
     if !reproduces(case, sig, ctx) {
         return case.clone();
+    }
+    if let Case::W2(_) = case {
+        let cur = ddmin_w2(case, sig, ctx);
+        let cur = shrink_leaves(&cur, sig, ctx);
+        return ddmin_w2(&cur, sig, ctx);
     }
     let mut cur = ddmin_ops(case, sig, ctx);
     cur = simplify_config(&cur, sig, ctx);
